@@ -65,7 +65,7 @@ func (c *Ctx) factsIn(ac *affCtx, f *ssa.Function) []string {
 			case ssa.CallInstruction:
 				// a helper that is looked through contributes its own facts, rendered in terms of this function
 				if call, ok := x.(*ssa.Call); ok {
-					if callee, ok := ac.transparent(call); ok {
+					if callee, ok := ac.transparentLoops(call, true); ok {
 						out = append(out, c.factsIn(ac.child(callee, call), callee)...)
 					}
 				}
@@ -109,6 +109,12 @@ type wireFact struct {
 	label string
 	has   []string // every string must occur in one and the same fact
 	why   string   // what breaks when the fact is missing
+}
+
+// wireAlt: an equivalent formulation of the same connection (e.g. append in loop order instead of an indexed store), by obligation key.
+var wireAlt = map[string][]string{
+	"desc.Chord.Describe|order":                 {"call builtin.append(phi", ",[desc.Attribute.Describe(p0.attr,chord.Mapper.GetChordAttributes(p0.mapper,p1)#0[i].Name,p2,p3)#0])"},
+	"astconv.ValuesConverterImpl.Convert|order": {"call builtin.append(phi", ",[astconv.ValuesConverterImpl.convertValue(p0,p1.Values[i])#0])"},
 }
 
 const tokVal = "github.com/berquerant/ybase.Token.Value"
@@ -273,20 +279,7 @@ func ruleWire(c *Ctx) {
 		for _, nf := range ws.need {
 			c.site(1)
 			key := ws.pkg + "." + ws.fn + "|" + nf.label
-			found := false
-			for _, f := range facts {
-				all := true
-				for _, h := range nf.has {
-					if !strings.Contains(f, h) {
-						all = false
-						break
-					}
-				}
-				if all {
-					found = true
-					break
-				}
-			}
+			found := hasFact(facts, nf.has...) || (len(wireAlt[key]) > 0 && hasFact(facts, wireAlt[key]...))
 			c.check(found, key, c.pos(fn.Pos()), fname(fn), "wired as stated", fmt.Sprintf("%s: %s (expected data-flow fact containing %q not found)", fname(fn), nf.why, strings.Join(nf.has, " ... ")))
 		}
 	}
